@@ -302,6 +302,24 @@ fn end_with_inherited_year(start: ds::Date, end: ds::Date) -> ds::Date {
     }
 }
 
+/// Get the year explicitly attached to a date.
+fn explicit_year(date: ds::Date) -> Option<i32> {
+    match date {
+        ds::Date::Fixed { year, .. } | ds::Date::Easter { year } => year.map(Into::into),
+    }
+}
+
+/// If both bounds of a range have an explicit year, there is a single interval which can be
+/// computed directly, however far apart its bounds are.
+fn explicit_interval(
+    (start, start_offset): (ds::Date, ds::DateOffset),
+    (end, end_offset): (ds::Date, ds::DateOffset),
+) -> Option<RangeInclusive<NaiveDate>> {
+    let start_date = date_on_year(start, explicit_year(start)?, valid_ymd_after)?;
+    let end_date = date_on_year(end, explicit_year(end)?, valid_ymd_before)?;
+    Some(start_offset.apply(start_date)..=end_offset.apply(end_date))
+}
+
 /// Project date on a given year, only if this exact day exists for that year (for example
 /// "Feb 29" only exists on leap years and "Apr 31" never does).
 fn exact_date_on_year(date: ds::Date, for_year: i32) -> Option<NaiveDate> {
@@ -345,6 +363,11 @@ impl DateFilter for ds::MonthdayRange {
                 }
 
                 let end = end_with_inherited_year(*start, *end);
+
+                if explicit_year(*start).is_some() && explicit_year(end).is_some() {
+                    return explicit_interval((*start, *start_offset), (end, *end_offset))
+                        .is_some_and(|interval| interval.contains(&date));
+                }
 
                 is_open_from_bounds(
                     date,
@@ -455,6 +478,13 @@ impl DateFilter for ds::MonthdayRange {
                 }
 
                 let end = end_with_inherited_year(*start, *end);
+
+                if explicit_year(*start).is_some() && explicit_year(end).is_some() {
+                    return Some(next_change_from_intervals(
+                        date,
+                        explicit_interval((*start, *start_offset), (end, *end_offset)).into_iter(),
+                    ));
+                }
 
                 Some(next_change_from_bounds(
                     date,
